@@ -167,6 +167,12 @@ func registerIntrinsics(P *Program) {
 		}
 		return nil
 	}
+	in[sa+"AdvanceClock"] = func(fr *frame, args []Value) Value {
+		m := fr.m
+		n, _ := m.side["clock.concrete"].(uint64)
+		m.side["clock.concrete"] = n + uint64(m.concInt(args[0], "AdvanceClock seconds"))*1_000_000_000
+		return nil
+	}
 	in[sa+"Settle"] = func(fr *frame, args []Value) Value {
 		m := fr.m
 		if m.threads == nil {
